@@ -276,7 +276,30 @@ pub fn install_panic_hook() {
         } else {
             "<non-string panic>".to_string()
         };
-        LAST_PANIC.with(|p| *p.borrow_mut() = Some(format!("{} at {}", msg, loc)));
+        // a panic raised inside std / core on behalf of the library (an index, a slice, an
+        // unwrap, encode_utf8 ...) has a location in the standard library: look at the call
+        // stack to see whose code asked for it
+        let mut origin = String::new();
+        if !loc.contains("/jmespath/src/") && !loc.contains("jmespath-cli/src/") {
+            let bt = std::backtrace::Backtrace::force_capture().to_string();
+            if std::env::var("JMV_SHOW_BT").is_ok() {
+                eprintln!("--- panic backtrace ---\n{}", bt);
+            }
+            // (skip the frames of the panic machinery and of this hook)
+            let bt = match bt.find("rust_begin_unwind") {
+                Some(k) => bt[k..].to_string(),
+                None => bt,
+            };
+            let lib = bt.find(" jmespath::").or_else(|| bt.find("<jmespath::"));
+            let own = bt.find(" jmv::").or_else(|| bt.find("<jmv::")).or_else(|| bt.find(" check::"));
+            if let Some(i) = lib {
+                if own.map(|j| i < j).unwrap_or(true) {
+                    let frame: String = bt[i..].lines().next().unwrap_or("").trim().chars().take(160).collect();
+                    origin = format!(" [raised under the library frame {}]", frame);
+                }
+            }
+        }
+        LAST_PANIC.with(|p| *p.borrow_mut() = Some(format!("{} at {}{}", msg, loc, origin)));
     }));
 }
 
@@ -772,7 +795,7 @@ pub fn run_property(p: &Property, tier: Tier, seed: u64, only_sub: Option<&str>)
 
 /// Does a captured panic description point into the library under test?
 pub fn panic_is_in_library(p: &str) -> bool {
-    p.contains("/jmespath/src/") || p.contains("jmespath-cli/src/")
+    p.contains("/jmespath/src/") || p.contains("jmespath-cli/src/") || p.contains("[raised under the library frame")
 }
 
 pub fn clip(s: &str, n: usize) -> String {
